@@ -75,6 +75,9 @@
 #define SLACK_MS 2000
 #define RECONN_MIN 5
 #define RECONN_MAX 20
+#define LONG_RETRY_MS 10000 // finite, but far beyond every bound: only the re-queue on pipe loss can rescue
+#define LATE_SLACK_MS 500
+#define STALL_MS 100
 
 enum { F_IOFAULT, F_CLOSE_ACCEPT, F_CLOSE_UNREAD, F_CLOSE_READ, F_CLOSE_HALF, F_CLOSE_REPLIED, F_DROP, F_DELAY, F_RESTART, F_KILLALL, F_N };
 static const char *fname[F_N] = { "iofault", "close-accept", "close-unread", "close-read", "close-half", "close-replied", "drop", "delay", "restart", "killall" };
@@ -90,12 +93,26 @@ typedef struct {
 	int kind, var, d_ms;
 } step;
 
+// resend time classes: infinite (< 0), timer (the resend timer can act within
+// a case), long (finite but >> every bound used here)
+static bool
+r_timer(int r)
+{
+	return r > 0 && r < 5000;
+}
+static const char *
+rn(int r)
+{
+	return r < 0 ? "inf" : r == 20 ? "20ms" : r == 50 ? "50ms" : r == 200 ? "200ms" : r == LONG_RETRY_MS ? "10s" : "other";
+}
+
 typedef struct {
 	bool     enumerated;
 	int      tran; // 0 tcp, 1 ipc
 	int      nrep, nctx;
 	bool     use_sock;
-	int      retry_ms; // -1: infinite
+	int      retry_ms; // -1: infinite; the socket's value when the contexts are opened
+	bool     mixed; // contexts get their own values (nng_ctx_set_ms), changed between exchanges
 	int      tick_ms;
 	int      nsteps;
 	step     steps[MAXSTEPS];
@@ -113,6 +130,8 @@ typedef struct {
 	size_t   len;
 	uint32_t id; // learned from the first sighting (0: not seen)
 	int      wire; // sightings
+	int      retry_ms; // resend time of its context when it was sent
+	uint64_t t_first_wire;
 	int      last_conn;
 	bool     replied; // a complete reply to it was written somewhere
 	uint64_t t_issue, t_last_wire;
@@ -155,6 +174,7 @@ typedef struct {
 	nng_ctx     ctx;
 	nng_aio    *sa, *ra;
 	atomic_int  sdone, rdone;
+	int         retry_ms; // resend time now set on this context
 	vf_rng      r;
 	pthread_t   th;
 } rctx;
@@ -190,7 +210,11 @@ static struct {
 	atomic_bool      abort;
 	bool             miss;
 	char             miss_desc[256];
-	uint64_t         B_ns;
+	int              miss_retry;
+	long             miss_bound_ms;
+	bool             late; // a timer retransmission came late on an unloaded machine
+	char             late_desc[256];
+	int              max_timer_retry;
 	// per case evidence
 	long             retx_loss, retx_timer, faults[F_N];
 } G;
@@ -228,6 +252,42 @@ static size_t
 x_replen(int xi)
 {
 	return VF_BODY_MIN + (size_t) (vf_mix64(G.c.key ^ (uint64_t) xi * 131) % 300);
+}
+
+static uint64_t
+bound_ns(int retry_ms)
+{
+	long ms = RECONN_MAX;
+	if (r_timer(retry_ms)) {
+		ms = (retry_ms > RECONN_MAX ? retry_ms : RECONN_MAX) + G.c.tick_ms;
+	}
+	return ms2ns(ms + SLACK_MS);
+}
+
+// load witness: the time a harness thread last overslept by more than
+// STALL_MS (heartbeat thread and the adversary's own poll loop)
+static _Atomic uint64_t stall_last_ns;
+
+static void
+stall_check(uint64_t *last, uint64_t expect_ns)
+{
+	uint64_t now = vf_now_ns();
+	if (*last != 0 && now - *last > expect_ns + ms2ns(STALL_MS)) {
+		atomic_store(&stall_last_ns, now);
+	}
+	*last = now;
+}
+
+static void *
+hb_thread(void *arg)
+{
+	(void) arg;
+	uint64_t last = 0;
+	for (;;) {
+		vf_usleep(1000);
+		stall_check(&last, 1000000);
+	}
+	return NULL;
 }
 
 static void
@@ -504,7 +564,8 @@ on_frame(conn *c, const uint8_t *p, size_t plen)
 		vf_violation("C12/retransmit/body-differs", "request frame on the wire carries tag %08x seq %llx len %zu: not a request of this socket", tag, (unsigned long long) seq, plen - 4);
 		return;
 	}
-	xrec *x = &G.x[xi];
+	xrec *x  = &G.x[xi];
+	int   xr = x->retry_ms;
 	{
 		uint8_t want[VF_BODY_MIN + 512];
 		vf_body_make(want, x->len, x_tag(xi), x_seq(xi));
@@ -515,12 +576,15 @@ on_frame(conn *c, const uint8_t *p, size_t plen)
 	if (x->id == 0) {
 		x->id = id;
 	} else if (x->id != id) {
-		vf_violation("C12/retransmit/id-changed", "transmission %d of request %d (ctx %d, resend %s) has id %08x, the original had %08x", x->wire + 1, xi, x->ctx, G.c.rname, id, x->id);
+		vf_violation("C12/retransmit/id-changed", "transmission %d of request %d (ctx %d, resend %s) has id %08x, the original had %08x", x->wire + 1, xi, x->ctx, rn(xr), id, x->id);
 	}
 	x->wire++;
+	if (x->wire == 1) {
+		x->t_first_wire = now;
+	}
 	if (x->wire > 1) {
 		bool loss = x->last_conn != c->serial && G.serial_closed[x->last_conn];
-		if (G.c.retry_ms < 0) {
+		if (xr < 0) {
 			vf_violation("C12/no-retry/on-wire-twice", "resend disabled, but request %d (ctx %d, id %08x) was put on the wire %d times (%s, %ld ms after the previous one; last fault %s)", xi, x->ctx, id, x->wire,
 			    loss ? "after its connection was lost" : "previous connection still open", (long) ((now - x->t_last_wire) / 1000000), fname[atomic_load(&G.last_fault_kind)]);
 		}
@@ -529,7 +593,27 @@ on_frame(conn *c, const uint8_t *p, size_t plen)
 		} else {
 			G.retx_timer++;
 		}
-		vf_class("retx/%s/%s/after-%s", loss ? "pipe-loss" : "timer", G.c.rname, fname[atomic_load(&G.last_fault_kind)]);
+		vf_class("retx/%s/%s/after-%s", loss ? "pipe-loss" : "timer", rn(xr), fname[atomic_load(&G.last_fault_kind)]);
+		if (x->wire == 3) {
+			vf_class("retx/nth>=3/%s/%s", loss ? "pipe-loss" : "timer", rn(xr));
+		}
+		if (x->wire == 2 && !loss && r_timer(xr)) {
+			// first timer retransmission while the connection of the first
+			// copy is still there: due RESENDTIME + one tick after the first
+			// copy at the latest (both times are read times here)
+			long lat = (long) ((now - x->t_first_wire) / 1000000), due = xr + G.c.tick_ms;
+			vf_stat("timer_retx_latency_judged", 1);
+			vf_stat_max("timer_retx_latency_over_due_ms_max", lat - due);
+			if (lat > due + LATE_SLACK_MS) {
+				if (atomic_load(&stall_last_ns) >= x->t_first_wire) {
+					vf_stat("timer_retx_late_under_load", 1);
+				} else if (!G.late) {
+					G.late = true;
+					snprintf(G.late_desc, sizeof(G.late_desc), "request %d (ctx %d, resend %s, tick %d ms): first copy read, connection kept, second copy read %ld ms later (due within %ld ms; no harness thread stalled more than %d ms meanwhile)", xi,
+					    x->ctx, rn(xr), G.c.tick_ms, lat, due, STALL_MS);
+				}
+			}
+		}
 	}
 	if (x->fenced) {
 		vf_violation(x->state == X_ANSWERED ? "C12/terminated/retransmitted-after-answered"
@@ -537,7 +621,7 @@ on_frame(conn *c, const uint8_t *p, size_t plen)
 		        : x->state == X_REPLACED    ? "C12/terminated/retransmitted-after-replace"
 		        : x->state == X_TIMEDOUT    ? "C12/terminated/retransmitted-after-timeout"
 		                                    : "C12/terminated/retransmitted-after-reset",
-		    "request %d (ctx %d, id %08x, resend %s) was %s %ld ms ago, yet transmission %d of it was read from the wire after the fence", xi, x->ctx, id, G.c.rname, xname[x->state], (long) ((now - x->t_dead) / 1000000), x->wire);
+		    "request %d (ctx %d, id %08x, resend %s) was %s %ld ms ago, yet transmission %d of it was read from the wire after the fence", xi, x->ctx, id, rn(xr), xname[x->state], (long) ((now - x->t_dead) / 1000000), x->wire);
 	}
 	x->last_conn   = c->serial;
 	x->t_last_wire = now;
@@ -576,7 +660,17 @@ on_frame(conn *c, const uint8_t *p, size_t plen)
 		step_done();
 		break;
 	case F_DROP:
-		step_done();
+		if (r_timer(xr)) {
+			step_done();
+		} else {
+			// without a resend timer a dropped reply only ends with the
+			// connection: close it a little later
+			c->doomed               = true;
+			c->close_at             = now + ms2ns(60);
+			c->close_completes_step = true;
+			G.consumed              = true;
+			mark_fault(F_DROP);
+		}
 		break;
 	case F_DELAY:
 		if (G.ndl < MAXDELAYED) {
@@ -735,8 +829,10 @@ static void *
 adversary(void *arg)
 {
 	(void) arg;
-	bool started = false;
+	bool     started = false;
+	uint64_t last_it = 0;
 	while (!atomic_load(&G.stop)) {
+		stall_check(&last_it, 1000000);
 		uint64_t now = vf_now_ns();
 		if (!started && atomic_load(&G.go)) {
 			started = true;
@@ -905,8 +1001,10 @@ set_miss(const char *what, int xi)
 	pthread_mutex_lock(&G.mx);
 	if (!G.miss) {
 		xrec *x = &G.x[xi];
-		G.miss = true;
-		snprintf(G.miss_desc, sizeof(G.miss_desc), "%s: request %d (ctx %d, op %s, issued %ld ms ago, on the wire %d times, last fault %s %ld ms ago, plan %s)", what, xi, x->ctx, opname[x->op],
+		G.miss          = true;
+		G.miss_retry    = x->retry_ms;
+		G.miss_bound_ms = (long) (bound_ns(x->retry_ms) / 1000000);
+		snprintf(G.miss_desc, sizeof(G.miss_desc), "%s: request %d (ctx %d, resend %s, op %s, issued %ld ms ago, on the wire %d times, last fault %s %ld ms ago, plan %s)", what, xi, x->ctx, rn(x->retry_ms), opname[x->op],
 		    (long) ((vf_now_ns() - x->t_issue) / 1000000), x->wire, fname[atomic_load(&G.last_fault_kind)], (long) ((vf_now_ns() - atomic_load(&G.t_fault)) / 1000000), atomic_load(&G.plan_done) ? "finished" : "unfinished");
 	}
 	pthread_mutex_unlock(&G.mx);
@@ -916,7 +1014,7 @@ set_miss(const char *what, int xi)
 // wait for a completion flag; 0 done, 1 bounded-progress deadline passed,
 // 2 another context aborted the case
 static int
-wait_flag(atomic_int *flag, uint64_t t_issue)
+wait_flag(atomic_int *flag, uint64_t t_issue, uint64_t B_ns)
 {
 	for (;;) {
 		if (atomic_load(flag)) {
@@ -924,7 +1022,7 @@ wait_flag(atomic_int *flag, uint64_t t_issue)
 		}
 		uint64_t tf   = atomic_load(&G.t_fault);
 		uint64_t base = tf > t_issue ? tf : t_issue;
-		if (vf_now_ns() > base + G.B_ns) {
+		if (vf_now_ns() > base + B_ns) {
 			return 1;
 		}
 		if (atomic_load(&G.abort)) {
@@ -955,7 +1053,11 @@ x_new(rctx *rc, int op, bool final)
 	memset(x, 0, sizeof(*x));
 	x->ctx     = rc->idx;
 	x->op      = op;
-	x->final   = final;
+	x->final    = final;
+	x->retry_ms = rc->retry_ms;
+	if (r_timer(rc->retry_ms) && rc->retry_ms > G.max_timer_retry) {
+		G.max_timer_retry = rc->retry_ms;
+	}
 	x->len     = VF_BODY_MIN + (size_t) (vf_mix64(G.c.key ^ (uint64_t) xi * 7919) % 400);
 	x->t_issue = vf_now_ns();
 	x->state   = X_OUT;
@@ -999,7 +1101,7 @@ judge(rctx *rc, int xi, int rv, nng_msg *m, uint64_t t_done)
 	xrec *x  = &G.x[xi];
 	bool  ok = false;
 	char  where[96];
-	snprintf(where, sizeof(where), "ctx %d%s request %d op %s resend %s", rc->idx, rc->is_sock ? " (socket)" : "", xi, opname[x->op], G.c.rname);
+	snprintf(where, sizeof(where), "ctx %d%s request %d op %s resend %s", rc->idx, rc->is_sock ? " (socket)" : "", xi, opname[x->op], rn(x->retry_ms));
 	pthread_mutex_lock(&G.mx);
 	x->t_dead      = t_done;
 	x->after_fault = atomic_load(&G.last_fault_kind);
@@ -1016,13 +1118,17 @@ judge(rctx *rc, int xi, int rv, nng_msg *m, uint64_t t_done)
 			vf_stat("replies_verified", 1);
 			if (x->wire > 1) {
 				vf_stat("answered_after_retransmission", 1);
+				if (x->retry_ms == LONG_RETRY_MS) {
+					// only the re-queue on pipe loss can have done this
+					vf_stat("longretry_answered_after_retransmission", 1);
+				}
 			}
 		}
 		x->state = X_ANSWERED;
 		break;
 	}
 	case NNG_ECONNRESET:
-		if (G.c.retry_ms >= 0) {
+		if (x->retry_ms >= 0) {
 			vf_violation("C12/retry/receive-failed-connreset", "%s: receive failed with NNG_ECONNRESET although resending is enabled (on the wire %d times, last fault %s)", where, x->wire, fname[atomic_load(&G.last_fault_kind)]);
 		} else {
 			vf_stat("noretry_econnreset", 1);
@@ -1054,9 +1160,9 @@ judge(rctx *rc, int xi, int rv, nng_msg *m, uint64_t t_done)
 		break;
 	}
 	if (x->state != X_ANSWERED && x->state != X_RESET) {
-		vf_class("term/%s/%s", xname[x->state], G.c.rname);
+		vf_class("term/%s/%s", xname[x->state], rn(x->retry_ms));
 	}
-	if (G.c.retry_ms < 0 && x->state == X_ANSWERED) {
+	if (x->retry_ms < 0 && x->state == X_ANSWERED) {
 		vf_stat("noretry_answered", 1);
 	}
 	pthread_mutex_unlock(&G.mx);
@@ -1083,6 +1189,33 @@ abandon(rctx *rc, int xi, bool posted)
 	pthread_mutex_unlock(&G.mx);
 }
 
+// Give a context its own resend time (the socket-as-context gets it through
+// the socket option, which leaves the open contexts alone).
+static void
+set_ctx_retry(rctx *rc, int retry_ms)
+{
+	nng_duration d = retry_ms < 0 ? NNG_DURATION_INFINITE : retry_ms;
+	int          rv;
+	if (rc->is_sock) {
+		rv = nng_socket_set_ms(G.sock, NNG_OPT_REQ_RESENDTIME, d);
+		vf_stat("resendtime_set_on_socket_after_ctx_open", 1);
+	} else {
+		rv = nng_ctx_set_ms(rc->ctx, NNG_OPT_REQ_RESENDTIME, d);
+		vf_stat("resendtime_set_on_ctx", 1);
+	}
+	if (rv != 0) {
+		vf_harness_fail("set resend time: %s", nng_strerror(rv));
+	}
+	rc->retry_ms = retry_ms;
+}
+
+static int
+pick_retry(vf_rng *r)
+{
+	static const int v[4] = { 20, 50, -1, LONG_RETRY_MS };
+	return v[vf_below(r, 4)];
+}
+
 static void *
 requester(void *arg)
 {
@@ -1101,12 +1234,19 @@ requester(void *arg)
 			pre = -1;
 		} else {
 			bool final = atomic_load(&G.plan_done);
-			xi         = x_new(rc, pick_op(rc, final), final);
+			if (G.c.mixed && vf_chance(&rc->r, 1, 3)) {
+				// between two exchanges: the next request runs under a
+				// different resend time than the previous one
+				set_ctx_retry(rc, pick_retry(&rc->r));
+			}
+			xi = x_new(rc, pick_op(rc, final), final);
 			issue_send(rc, xi);
 		}
-		xrec *x = &G.x[xi];
+		xrec    *x   = &G.x[xi];
+		uint64_t B   = bound_ns(x->retry_ms);
+		uint32_t eff = r_timer(x->retry_ms) ? (uint32_t) x->retry_ms : 40; // scale of the requester's own delays
 		// the send completes when the request has been handed to a pipe
-		if ((w = wait_flag(&rc->sdone, x->t_issue)) != 0) {
+		if ((w = wait_flag(&rc->sdone, x->t_issue, B)) != 0) {
 			if (w == 1) {
 				set_miss("send not accepted within the bound", xi);
 			}
@@ -1138,7 +1278,7 @@ requester(void *arg)
 		if (x->op == OP_LATE) {
 			vf_msleep((int) vf_range(&rc->r, 1, 40));
 		}
-		long tmo_ms = x->op == OP_TIMEOUT ? 1 + (long) vf_below(&rc->r, G.c.retry_ms > 0 ? (uint32_t) G.c.retry_ms * 2 : 60) : LONG_MS;
+		long tmo_ms = x->op == OP_TIMEOUT ? 1 + (long) vf_below(&rc->r, eff * 2) : LONG_MS;
 		nng_aio_set_timeout(rc->ra, (nng_duration) tmo_ms);
 		atomic_store(&rc->rdone, 0);
 		uint64_t t_post = vf_now_ns();
@@ -1149,11 +1289,11 @@ requester(void *arg)
 		}
 		uint64_t t_term = 0;
 		if (x->op == OP_CANCEL) {
-			sleep_unless(&rc->rdone, vf_chance(&rc->r, 1, 3) ? 0 : (int) vf_below(&rc->r, G.c.retry_ms > 0 ? (uint32_t) (G.c.retry_ms * 3 / 2) : 60));
+			sleep_unless(&rc->rdone, vf_chance(&rc->r, 1, 3) ? 0 : (int) vf_below(&rc->r, eff * 3 / 2));
 			nng_aio_cancel(rc->ra);
 			t_term = vf_now_ns();
 		} else if (x->op == OP_REPLACE) {
-			sleep_unless(&rc->rdone, vf_chance(&rc->r, 1, 3) ? 0 : (int) vf_below(&rc->r, G.c.retry_ms > 0 ? (uint32_t) (G.c.retry_ms * 3 / 2) : 60));
+			sleep_unless(&rc->rdone, vf_chance(&rc->r, 1, 3) ? 0 : (int) vf_below(&rc->r, eff * 3 / 2));
 			if (!atomic_load(&rc->rdone) && !atomic_load(&G.abort)) {
 				bool final = atomic_load(&G.plan_done);
 				pre        = x_new(rc, pick_op(rc, final), final);
@@ -1161,9 +1301,9 @@ requester(void *arg)
 				t_term = vf_now_ns();
 			}
 		}
-		if ((w = wait_flag(&rc->rdone, x->t_issue)) != 0) {
+		if ((w = wait_flag(&rc->rdone, x->t_issue, B)) != 0) {
 			if (w == 1) {
-				set_miss(G.c.retry_ms < 0 ? "receive neither answered nor failed with NNG_ECONNRESET within the bound" : "receive not answered within the bound", xi);
+				set_miss(x->retry_ms < 0 ? "receive neither answered nor failed with NNG_ECONNRESET within the bound" : "receive not answered within the bound", xi);
 			}
 			abandon(rc, xi, true);
 			break;
@@ -1178,7 +1318,7 @@ requester(void *arg)
 			// the application asked for has elapsed (one-sided: t_done is
 			// taken after the completion, so the elapsed time is over-estimated)
 			vf_violation("C12/timeout-early/stale-expiry-cancel", "ctx %d request %d op %s resend %s: receive with a %ld ms timeout failed with NNG_ETIMEDOUT after %ld ms (%d exchanges earlier on this aio; the request was on the wire %d times)", rc->idx, xi,
-			    opname[x->op], G.c.rname, tmo_ms, (long) ((t_done - t_post) / 1000000), count, x->wire);
+			    opname[x->op], rn(x->retry_ms), tmo_ms, (long) ((t_done - t_post) / 1000000), count, x->wire);
 		} else if (rv == NNG_ETIMEDOUT && x->op != OP_TIMEOUT) {
 			// LONG_MS expired: cannot happen before the bound
 			set_miss("receive timed out", xi);
@@ -1200,8 +1340,14 @@ requester(void *arg)
 			// terminated request must stay off the wire (the next send would
 			// purge it anyway)
 			atomic_int never = 0;
-			sleep_unless(&never, G.c.retry_ms > 0 ? G.c.retry_ms + 2 * G.c.tick_ms + 75 : 75);
+			sleep_unless(&never, r_timer(x->retry_ms) ? x->retry_ms + 2 * G.c.tick_ms + 75 : 75);
 			vf_stat("idle_watch_after_termination", 1);
+		} else if (answered && !x->final && G.c.nctx > 1 && pre < 0 && vf_chance(&rc->r, 1, 6)) {
+			// an answered, idle context stays on the list of the pipe that
+			// carried its request while the others go on and faults strike
+			atomic_int never = 0;
+			sleep_unless(&never, (int) vf_range(&rc->r, 10, 60));
+			vf_stat("idle_pauses_after_answer", 1);
 		}
 		if (!atomic_load(&G.plan_done) && pre < 0) {
 			// think time, so that an outage is not met by hundreds of
@@ -1224,7 +1370,7 @@ requester(void *arg)
 }
 
 // --------------------------------------------------------------- one case
-static bool
+static int
 run_case(long idx, const casecfg *cfg, bool recheck)
 {
 	rctx       rc[MAXCTX];
@@ -1256,8 +1402,8 @@ run_case(long idx, const casecfg *cfg, bool recheck)
 		atomic_store_explicit(&G.myport[i], 0, memory_order_relaxed);
 	}
 	atomic_store(&G.abort, false);
-	G.miss = false;
-	G.B_ns = ms2ns((cfg->retry_ms > RECONN_MAX ? cfg->retry_ms : RECONN_MAX) + (cfg->retry_ms > 0 ? cfg->tick_ms : 0) + SLACK_MS);
+	G.miss = G.late = false;
+	G.max_timer_retry = 0;
 	for (int i = 0; i < MAXCONN; i++) {
 		G.cn[i].fd = -1;
 	}
@@ -1317,6 +1463,16 @@ run_case(long idx, const casecfg *cfg, bool recheck)
 		if (nng_aio_alloc(&rc[i].sa, cb_done, &rc[i].sdone) != 0 || nng_aio_alloc(&rc[i].ra, cb_done, &rc[i].rdone) != 0) {
 			vf_harness_fail("aio alloc");
 		}
+		rc[i].retry_ms = cfg->retry_ms; // inherited from the socket at nng_ctx_open
+	}
+	if (cfg->mixed) {
+		// own values per context; the socket option is changed after the
+		// contexts were opened (they must keep theirs)
+		for (int i = cfg->nctx - 1; i >= 0; i--) {
+			if (rc[i].is_sock || vf_chance(&rc[i].r, 2, 3)) {
+				set_ctx_retry(&rc[i], pick_retry(&rc[i].r));
+			}
+		}
 	}
 	if (cfg->jit_permille > 0) {
 		vf_pt_jitter(cfg->key, cfg->jit_permille, cfg->jit_us);
@@ -1349,7 +1505,7 @@ run_case(long idx, const casecfg *cfg, bool recheck)
 		vf_msleep(10);
 		fence();
 	}
-	bool miss = G.miss;
+	int miss = G.miss ? 1 : 0;
 	if (!miss && !atomic_load(&G.abort)) {
 		// linger: a request that is over must stay off the wire even when
 		// its resend time comes
@@ -1362,7 +1518,7 @@ run_case(long idx, const casecfg *cfg, bool recheck)
 			dead += G.x[i].fenced && G.x[i].state != X_ANSWERED;
 		}
 		pthread_mutex_unlock(&G.mx);
-		vf_msleep(cfg->retry_ms > 0 ? cfg->retry_ms + 2 * cfg->tick_ms + 20 : 30);
+		vf_msleep(G.max_timer_retry > 0 ? G.max_timer_retry + 2 * cfg->tick_ms + 20 : 30);
 		fence();
 		vf_stat("fenced_requests_watched", fenced);
 		vf_stat("fenced_terminated_watched", dead);
@@ -1383,9 +1539,28 @@ run_case(long idx, const casecfg *cfg, bool recheck)
 
 	if (!miss && !atomic_load(&G.abort)) {
 		// evidence
-		long once = 0;
+		long once = 0, inf = 0, lng = 0, third = 0;
+		int  maxw = 0;
 		for (int i = 0; i < G.nx; i++) {
-			once += G.c.retry_ms < 0 && G.x[i].wire == 1;
+			once += G.x[i].retry_ms < 0 && G.x[i].wire == 1;
+			inf += G.x[i].retry_ms < 0;
+			lng += G.x[i].retry_ms == LONG_RETRY_MS;
+			third += G.x[i].wire >= 3;
+			maxw = G.x[i].wire > maxw ? G.x[i].wire : maxw;
+		}
+		vf_stat_max("max_transmissions_of_one_request", maxw);
+		vf_stat("requests_transmitted_3_or_more_times", third);
+		if (lng) {
+			vf_stat("longretry_cases", 1);
+		}
+		if (cfg->mixed) {
+			vf_stat("cases_mixed_resend_times", 1);
+		}
+		if (cfg->use_sock) {
+			vf_stat("cases_with_socket_ctx", 1);
+		}
+		if (r_timer(cfg->retry_ms) && cfg->tick_ms > cfg->retry_ms) {
+			vf_stat("cases_tick_gt_resend", 1);
 		}
 		vf_stat("cases", 1);
 		vf_stat(cfg->enumerated ? "cases_enumerated" : "cases_sampled", 1);
@@ -1393,7 +1568,7 @@ run_case(long idx, const casecfg *cfg, bool recheck)
 		vf_stat("retx_pipe_loss", G.retx_loss);
 		vf_stat("retx_timer", G.retx_timer);
 		vf_stat("noretry_once_on_wire", once);
-		if (cfg->retry_ms < 0) {
+		if (inf) {
 			vf_stat("noretry_cases", 1);
 		}
 		long nf = 0;
@@ -1410,41 +1585,56 @@ run_case(long idx, const casecfg *cfg, bool recheck)
 			vf_stat("multi_fault_cases", 1);
 		}
 		if (cfg->enumerated) {
-			vf_class("plan/enum/%s/%s/%s.%d.%d/ctx%d", cfg->tran ? "ipc" : "tcp", cfg->rname, fname[cfg->steps[0].kind], cfg->steps[0].var, cfg->steps[0].d_ms, cfg->nctx);
+			vf_class("plan/enum/%s/%s/%s.%d.%d/ctx%d%s", cfg->tran ? "ipc" : "tcp", cfg->rname, fname[cfg->steps[0].kind], cfg->steps[0].var, cfg->steps[0].d_ms, cfg->nctx, cfg->use_sock ? "+sock" : "");
 		} else {
-			vf_class("plan/sampled/%s/%s", cfg->retry_ms < 0 ? "inf" : "finite", cfg->shape);
+			vf_class("plan/sampled/%s/%s", cfg->mixed ? "mixed" : cfg->retry_ms < 0 ? "inf" : r_timer(cfg->retry_ms) ? "finite" : "long", cfg->shape);
 		}
 		if ((idx % 7) == 0) {
 			vf_sample("{\"mode\":\"%s\",\"tran\":\"%s\",\"resend\":\"%s\",\"tick\":%d,\"ctx\":%d,\"repliers\":%d,\"plan\":\"%s\",\"ops\":%d,\"exchanges\":%d,\"frames\":%ld,\"retx_pipe_loss\":%ld,\"retx_timer\":%ld}", cfg->enumerated ? "enum" : "sampled",
 			    cfg->tran ? "ipc" : "tcp", cfg->rname, cfg->tick_ms, cfg->nctx, cfg->nrep, cfg->shape, cfg->ops, G.nx, G.frames, G.retx_loss, G.retx_timer);
 		}
 	}
+	pthread_mutex_lock(&G.mx);
+	if (G.late) {
+		miss |= 2;
+	}
+	pthread_mutex_unlock(&G.mx);
 	return miss;
 }
 
 static void
 check_case(long idx, casecfg *cfg)
 {
-	snprintf(cfg->rname, sizeof(cfg->rname), cfg->retry_ms < 0 ? "inf" : "%dms", cfg->retry_ms);
+	snprintf(cfg->rname, sizeof(cfg->rname), cfg->mixed ? "mixed(%s)" : "%s", rn(cfg->retry_ms));
 	for (int i = 0; i < cfg->nsteps; i++) {
 		cfg->shape[i] = fletter[cfg->steps[i].kind];
 	}
 	cfg->shape[cfg->nsteps] = 0;
-	if (run_case(idx, cfg, false)) {
-		char first[256];
+	int m1 = run_case(idx, cfg, false);
+	if (m1 != 0) {
+		char first[256], late1[256];
+		int  r1 = G.miss_retry;
 		snprintf(first, sizeof(first), "%s", G.miss_desc);
-		vf_stat("progress_miss_rechecked", 1);
-		fprintf(stderr, "C12: bounded-progress miss in case %ld (%s), re-running once\n", idx, first);
-		if (run_case(idx, cfg, true)) {
-			char key[96];
-			snprintf(key, sizeof(key), "C12/%s/%s", cfg->retry_ms < 0 ? "no-retry/no-econnreset-after-loss" : "bounded-progress/not-answered", cfg->nsteps == 1 ? fname[cfg->steps[0].kind] : "multi-fault");
-			vf_violation(key, "missed twice (bound %ld ms after the last fault). first run: %s; second run: %s", (long) (G.B_ns / 1000000), first, G.miss_desc);
+		snprintf(late1, sizeof(late1), "%s", G.late_desc);
+		vf_stat((m1 & 1) ? "progress_miss_rechecked" : "timer_late_rechecked", 1);
+		fprintf(stderr, "C12: %s in case %ld (%s), re-running once\n", (m1 & 1) ? "bounded-progress miss" : "late timer retransmission", idx, (m1 & 1) ? first : late1);
+		int m2 = run_case(idx, cfg, true);
+		if ((m1 & 1) && (m2 & 1)) {
+			char key[110];
+			// judged by the resend time of the request that missed first
+			snprintf(key, sizeof(key), "C12/%s/%s", r1 < 0 ? "no-retry/no-econnreset-after-loss" : r_timer(r1) ? "bounded-progress/not-answered" : "bounded-progress/not-retransmitted-after-loss",
+			    cfg->nsteps == 1 ? fname[cfg->steps[0].kind] : "multi-fault");
+			vf_violation(key, "missed twice (bound %ld ms after the last fault). first run: %s; second run: %s", G.miss_bound_ms, first, G.miss_desc);
+		}
+		if ((m1 & 2) && (m2 & 2)) {
+			vf_violation("C12/timer-late/first-retransmission", "twice. first run: %s; second run: %s", late1, G.late_desc);
 		}
 	}
 }
 
 // --------------------------------------------------------------- plans
-static const int resends[4] = { 20, 50, 200, -1 };
+static const int resends[5] = { 20, 50, 200, -1, LONG_RETRY_MS };
+#define NRESENDS 5
 
 typedef struct {
 	int kind, var, d_ms; // d_ms < 0: relative to RESENDTIME (-1: +30, -2: /2)
@@ -1462,13 +1652,10 @@ static void
 fix_step(step *s, int retry_ms)
 {
 	if (s->kind == F_DELAY && s->d_ms < 0) {
-		s->d_ms = retry_ms < 0 ? (s->d_ms == -1 ? 80 : 25) : (s->d_ms == -1 ? retry_ms + 30 : retry_ms / 2);
+		s->d_ms = !r_timer(retry_ms) ? (s->d_ms == -1 ? 80 : 25) : (s->d_ms == -1 ? retry_ms + 30 : retry_ms / 2);
 	}
-	if (s->kind == F_DROP && retry_ms < 0) {
-		// without resend a dropped reply only ends with the connection
-		s->kind = F_CLOSE_READ;
-		s->d_ms = 60;
-	}
+	// (a drop met by a request without a usable resend timer turns into a
+	// delayed close in on_frame)
 }
 
 int
@@ -1477,12 +1664,19 @@ main(int argc, char **argv)
 	vf_init(argc, argv);
 	vf_nng_init(4, 2, 2);
 	pthread_mutex_init(&G.mx, NULL);
+	{
+		pthread_t      t;
+		pthread_attr_t at;
+		pthread_attr_init(&at);
+		pthread_attr_setdetachstate(&at, PTHREAD_CREATE_DETACHED);
+		pthread_create(&t, &at, hb_thread, NULL);
+	}
 	long idx = 0, ran = 0;
 
 	if (!strcmp(vf_mode, "enum")) {
 		for (int big = 0; big < 2; big++) {
 			for (int tran = 0; tran < 2; tran++) {
-				for (int ri = 0; ri < 4; ri++) {
+				for (int ri = 0; ri < NRESENDS; ri++) {
 					for (int v = 0; v < NVARIANTS; v++, idx++) {
 						if ((idx % vf_nshards) != vf_shard || !vf_want_case(idx)) {
 							continue;
@@ -1495,6 +1689,7 @@ main(int argc, char **argv)
 						c.tick_ms    = 5 + (int) (vf_mix64(vf_seed ^ (uint64_t) idx) % 16);
 						c.nrep       = big ? 2 : variants[v].nrep;
 						c.nctx       = big ? 3 : 1;
+						c.use_sock   = big; // context 0 of the big variant is the socket itself
 						c.key        = vf_mix64(vf_seed * 31 + (uint64_t) idx);
 						c.nonce      = (uint32_t) (c.key >> 20) & 0xffff;
 						c.nsteps     = 1;
@@ -1523,8 +1718,12 @@ main(int argc, char **argv)
 			c.nctx     = 1 + (int) vf_below(&r, MAXCTX);
 			c.use_sock = vf_chance(&r, 1, 4);
 			uint32_t w = vf_below(&r, 10);
-			c.retry_ms = w < 3 ? 20 : w < 6 ? 50 : w < 7 ? 200 : -1;
+			c.retry_ms = w < 3 ? 20 : w < 5 ? 50 : w < 6 ? 200 : w < 8 ? -1 : LONG_RETRY_MS;
 			c.tick_ms  = (int) vf_range(&r, 5, 20);
+			c.mixed    = c.retry_ms != 200 && c.nctx > 1 && vf_chance(&r, 1, 3);
+			if (r_timer(c.retry_ms) && c.retry_ms <= 50 && !c.mixed && vf_chance(&r, 1, 8)) {
+				c.tick_ms = 300; // tick longer than the resend time
+			}
 			c.key      = vf_rand(&r);
 			c.nonce    = (uint32_t) (c.key >> 20) & 0xffff;
 			c.ops      = vf_chance(&r, 1, 2);
@@ -1542,7 +1741,7 @@ main(int argc, char **argv)
 				case F_CLOSE_ACCEPT: s->var = (int) vf_below(&r, 2); break;
 				case F_CLOSE_READ: s->d_ms = vf_chance(&r, 1, 2) ? 0 : (int) vf_range(&r, 5, 60); break;
 				case F_CLOSE_HALF: s->var = (int) vf_below(&r, 3); break;
-				case F_DELAY: s->d_ms = c.retry_ms < 0 ? (int) vf_range(&r, 10, 120) : vf_chance(&r, 2, 3) ? c.retry_ms + (int) vf_range(&r, 5, 60) : c.retry_ms / 2; break;
+				case F_DELAY: s->d_ms = !r_timer(c.retry_ms) ? (int) vf_range(&r, 10, 120) : vf_chance(&r, 2, 3) ? c.retry_ms + (int) vf_range(&r, 5, 60) : c.retry_ms / 2; break;
 				case F_RESTART:
 					s->var  = (int) vf_below(&r, 2);
 					s->d_ms = (int) vf_below(&r, 101);
